@@ -108,6 +108,56 @@ func c02ops() []c02op {
 			return nil
 		}})
 	}
+	ops = append(ops, c02op{"BatchPut(x/a,z)", func(db *Interface, dbName, ns string, ref map[string]*c02ref, step int) error {
+		// a batch of two records, closed with nil; a backend without batch support refuses it as a whole
+		done := make(chan error, 1)
+		go func() {
+			put := db.PutMany(dbName)
+			var first error
+			for i, k := range []string{"x/a", "z"} {
+				r := &Example{Name: "n", Score: step + 200 + i}
+				r.SetKey(dbName + ":" + ns + k)
+				if err := put(r); err != nil {
+					first = err
+					break
+				}
+			}
+			// the batch is always closed, as a caller that defers the closing call does
+			if err := put(nil); first == nil {
+				first = err
+			}
+			done <- first
+		}()
+		select {
+		case err := <-done:
+			if errors.Is(err, ErrNotImplemented) {
+				return nil // nothing stored, checked by the observation that follows
+			}
+			if err != nil {
+				return err
+			}
+			ref["x/a"] = &c02ref{step + 200, true}
+			ref["z"] = &c02ref{step + 201, true}
+			return nil
+		case <-time.After(5 * time.Second):
+			return errors.New("the batch put does not return (waited 5s)")
+		}
+	}})
+	ops = append(ops, c02op{"Purge(x/)", func(db *Interface, dbName, ns string, ref map[string]*c02ref, step int) error {
+		_, err := db.Purge(context.Background(), q.New(dbName+":"+ns+"x/").MustBeValid())
+		if errors.Is(err, ErrNotImplemented) {
+			return nil
+		}
+		if err != nil {
+			return err
+		}
+		for _, k := range c02keys {
+			if strings.HasPrefix(k, "x/") {
+				delete(ref, k)
+			}
+		}
+		return nil
+	}})
 	ops = append(ops, c02op{"MaintainRecordStates()", func(db *Interface, dbName, ns string, ref map[string]*c02ref, step int) error {
 		return MaintainRecordStates(context.Background())
 	}})
@@ -305,7 +355,7 @@ func TestBoundedC02RefMap(t *testing.T) {
 		}
 		_ = ci
 	}
-	fmt.Printf("BOUNDED name=C02/reference-map cases=%d distinct=%d bound=every sequence of up to 2 operations (3 on one hashmap configuration in the thorough tier; there, and on bbolt and fstree, the first operation only on one key) out of %d operation instances (put, put-new, delete, put of an expired record, expiry in the past, expiry in the future on 5 keys sharing prefixes and path separators; record-state maintenance; maintenance) plus %d longer sequences (re-put after delete and maintenance, expiry then maintenance, double delete), on hashmap, bbolt and fstree x shadow delete on/off x read cache off/on; after every step Get and Exists of all keys and 32 queries (8 key prefixes incl. non-boundary prefixes x no condition / integer condition / string condition / string operator on a number field) are compared with a reference map\n",
+	fmt.Printf("BOUNDED name=C02/reference-map cases=%d distinct=%d bound=every sequence of up to 2 operations (3 on one hashmap configuration in the thorough tier; there, and on bbolt and fstree, the first operation only on one key) out of %d operation instances (put, put-new, delete, put of an expired record, expiry in the past, expiry in the future on 5 keys sharing prefixes and path separators; batch put of two records; purge of a key prefix; record-state maintenance; maintenance) plus %d longer sequences (re-put after delete and maintenance, expiry then maintenance, double delete), on hashmap, bbolt and fstree x shadow delete on/off x read cache off/on; after every step Get and Exists of all keys and 32 queries (8 key prefixes incl. non-boundary prefixes x no condition / integer condition / string condition / string operator on a number field) are compared with a reference map\n",
 		cases, cases, len(ops), len(extra))
 	if fails > 0 {
 		t.Fatalf("%d of %d sequences differ from the reference map", fails, cases)
